@@ -90,12 +90,26 @@ class C06(Prop):
                 else:
                     row.append(g.choice(PLAIN))
             rows.append(row)
+        sc0 = self._gen_rest(g, st, nk, nc, nr, rows, textcol)
+        if sc0["no_null_item"]:
+            # cells equal to the NULL values of the files a used reading object may have seen before (-5, 7)
+            for r_ in rows:
+                j = g.randrange(1, nc)
+                if j != textcol:
+                    r_[j] = g.choice(["-5", "7", "-5.0", "7.00", "-5E0"])
+            if g.random() < 0.7 and not sc0["channel"].get("used_object"):
+                sc0["channel"]["used_object"] = g.choice(["PLAIN", "COMMA", "TAB", "WRAP"])
+        return sc0
+
+    def _gen_rest(self, g, st, nk, nc, nr, rows, textcol):
         return {"undeclared": g.choice([0, 0, 0, 1, 2]) if nc >= 3 else 0, "touch_then_nan": g.random() < 0.25,
                 "retype": g.choice([None, None, None, None, "float32", "float32", "float16"]),
+                # the file declares no NULL at all: then nothing is null (whatever the reading object saw before)
+                "no_null_item": g.random() < 0.06,
                 "null_key": nk, "null_spelling": g.choice(NULLS[nk]), "rows": rows, "textcol": textcol,
                 "wrap": g.random() < 0.2 and nc >= 3, "policy_null": g.choice(["strict", "strict", "none"]),
                 "nkw": neutral_read_kw(g, exclude=("null_policy",)), "engine": g.choice(["numpy", "normal"]), "vers": g.choice([1.2, 2.0]), "case": g.choice(["upper", "upper", "lower", "preserve"]),
-                "channel": draw_read_channel(g, ascii_only=True, used_object_p=0.06), "policy": Policy.draw(st.io).to_json(),
+                "channel": draw_read_channel(g, ascii_only=True, used_object_p=0.1), "policy": Policy.draw(st.io).to_json(),
                 "wkw": g.choice([{}, {}, {"version": 1.2}, {"wrap": True}, {"version": 2.0, "wrap": False}, {"fmt": "%.4f"},
                                  {"fmt": "%12.4f", "len_numeric_field": -1}, {"fmt": "%+.3f"}, {"fmt": "%10.3E"}, {"fmt": "%-9.2f"},
                                  {"column_fmt": {"1": "%8.2f"}}, {"column_fmt": {"1": "%+.5f", "2": "%G"}}]),
@@ -104,7 +118,8 @@ class C06(Prop):
     def text(self, sc):
         nc = len(sc["rows"][0])
         lines = docmodel.version_section(sc["vers"], "YES" if sc["wrap"] else "NO")
-        lines += docmodel.well_section(100.0, 101.0, 0.5, sc["null_spelling"], "M", (("COMP", "", "ACME", "COMPANY"),), version=sc["vers"])
+        lines += docmodel.well_section(100.0, 101.0, 0.5, None if sc.get("no_null_item") else sc["null_spelling"], "M",
+                                       (("COMP", "", "ACME", "COMPANY"),), version=sc["vers"])
         nd = nc - (0 if sc["wrap"] else sc.get("undeclared", 0))     # the last columns are not declared in ~C (unwrapped files only)
         lines += docmodel.curve_section(([("DEPT", "M", "", "index")] + [("C%d" % j, "U", "", "curve %d" % j) for j in range(1, nc)])[:nd])
         lines.append("~ASCII")
@@ -159,7 +174,7 @@ class C06(Prop):
                         res.count("literal-nan-cells")
                         continue
                     is_null = (v == nullv)
-                    want_nan = is_null and j != 0 and sc["policy_null"] == "strict"
+                    want_nan = is_null and j != 0 and sc["policy_null"] == "strict" and not sc.get("no_null_item")
                     if is_null and j != 0:
                         n_null_nonindex += 1
                     elif is_null or cell in NEAR[sc["null_key"]]:
@@ -194,6 +209,8 @@ class C06(Prop):
             if rounds_to_null:
                 # a finite sample whose printed form is numerically the NULL marker legitimately reads back as NaN
                 res.count("write-half-skipped-sample-prints-as-null")
+            elif sc.get("no_null_item"):
+                res.count("write-half-skipped-no-null-item")
             elif sc["policy_null"] == "strict" and sc["textcol"] is None:
                 if sc.get("touch_then_nan"):
                     # the data table is looked at, then a sample is set to NaN in place, then the file is written
